@@ -8,6 +8,7 @@ import json
 import logging
 import multiprocessing as mp
 import random
+import zlib
 
 import numpy as np
 import onnx
@@ -39,7 +40,16 @@ PASSES = {
     "ClearMetadataAndDocString": lambda: cp.ClearMetadataAndDocStringPass(),
     "ShapeInference": lambda: cp.ShapeInferencePass(),
     "Checker": lambda: cp.CheckerPass(),
+    "CloneFunctional": lambda: _CloneFunctional(),
 }
+
+
+class _CloneFunctional(ir.passes.FunctionalPass):
+    """A functional pass of the harness: returns a clone of its input (so that sequences can end functionally)."""
+
+    def call(self, model):
+        return ir.passes.PassResult(model.clone(), modified=False)
+
 ANALYSIS = {"Checker"}
 SEQUENCES = [
     ("Inline", "CSE", "RemoveUnusedNodes"),
@@ -48,7 +58,32 @@ SEQUENCES = [
     ("AddInitializersToInputs", "RemoveInitializersFromInputs"),
     ("LiftSubgraphInitializers", "DeduplicateHashedInitializers", "NameFix"),
     ("Inline", "IdentityElimination", "TopologicalSort", "RemoveUnusedFunctions", "RemoveUnusedOpsets"),
+    # a side-effect-only pass first, then an in-place pass, then a functional one
+    ("Checker", "ClearMetadataAndDocString", "CloneFunctional"),
+    ("Checker", "NameFix"),
 ]
+
+
+# the pass manager (a pass itself): (name, passes, steps, early_stop)
+def _pm(names, steps, early):
+    return (f"PM({','.join(names)};steps={steps};{'stop' if early else 'nostop'})", names, steps, early)
+
+
+MANAGERS = [
+    _pm(("RemoveUnusedNodes", "TopologicalSort"), 2, False),
+    _pm(("IdentityElimination", "RemoveUnusedNodes"), 3, True),
+    _pm(("NameFix",), 1, False),
+    _pm(("CSE", "RemoveUnusedNodes", "RemoveUnusedFunctions"), 2, True),
+]
+
+
+def make_pass(job):
+    """The pass object of a job: a single pass, a Sequential, or a PassManager ('PM...' first element)."""
+    if job[0].startswith("PM"):
+        name, names, steps, early = next(m for m in MANAGERS if m[0] == job[0])
+        return ir.passes.PassManager([PASSES[n]() for n in names], steps=steps, early_stop=early), [PASSES[n]() for n in names]
+    passes = [PASSES[n]() for n in job]
+    return (passes[0] if len(passes) == 1 else ir.passes.Sequential(*passes)), passes
 
 
 def ser(model) -> bytes:
@@ -164,6 +199,31 @@ def checker_ok(proto) -> bool:
         return False
 
 
+def run_functionalized(P: dict, pid: int) -> dict:
+    """Only the functionalize() probe of every pass object on one program (C13)."""
+    out = {"apps": [], "bad_corpus": None}
+    proto = rewrite.concretize(P, variant=pid)
+    if not checker_ok(proto):
+        out["bad_corpus"] = "concretised program rejected by onnx.checker"
+        return out
+    proto_bytes = proto.SerializeToString()
+    jobs = [(name,) for name in PASSES if name != "CloneFunctional"] + list(SEQUENCES) + [(m[0],) for m in MANAGERS]
+    for ji, job in enumerate(jobs):
+        if (pid + ji) % 3:
+            continue
+        fm = ir.from_proto(onnx.load_from_string(proto_bytes))
+        b0 = ser(fm)
+        rec = {"inplace": True, "same": True, "modified": False, "changed": False, "rounds": [{"modified": False, "changed": False}],
+               "size": 1, "invariantsOK": True, "sortedBefore": True, "sortedAfter": True, "namesOK": True, "analysis": False}
+        try:
+            fr = ir.passes.functionalize(make_pass(job)[0])(fm)
+            rec.update(funcTried=True, funcRaised=False, funcInputSame=ser(fm) == b0, funcFresh=fr.model is not fm)
+        except Exception:  # noqa: BLE001
+            rec.update(funcTried=True, funcRaised=True, funcInputSame=True, funcFresh=True)
+        out["apps"].append({"id": f"{pid}:{'+'.join(job)}", "a": rec})
+    return out
+
+
 def run_program(P: dict, pid: int, seed: int, pass_names=None, with_sequences=True) -> dict:
     """Returns {'pairs': [...], 'apps': [...], 'obs': [...], 'raised': [...], 'bad_corpus': str|None}."""
     out = {"pairs": [], "apps": [], "obs": [], "raised": [], "bad_corpus": None, "witness": {}, "invalid_after": []}
@@ -180,15 +240,15 @@ def run_program(P: dict, pid: int, seed: int, pass_names=None, with_sequences=Tr
     before_abs = rewrite.abstract(base)
     ser_before = ser(base)
     before_eval = None
-    jobs = [(name,) for name in (pass_names or PASSES)]
+    jobs = [(name,) for name in (pass_names or PASSES) if name != "CloneFunctional"]
     if with_sequences:
         jobs += [s for s in SEQUENCES if pid % len(SEQUENCES) == SEQUENCES.index(s)]
+        jobs += [(m[0],) for m in MANAGERS if pid % len(MANAGERS) == MANAGERS.index(m)]
     for job in jobs:
         key = f"{pid}:{'+'.join(job)}"
         model = fresh()
         sorted_before = is_sorted(model)
-        passes = [PASSES[n]() for n in job]
-        the_pass = passes[0] if len(passes) == 1 else ir.passes.Sequential(*passes)
+        the_pass, passes = make_pass(job)
         try:
             res = the_pass(model)
         except Exception as e:  # noqa: BLE001
@@ -210,12 +270,21 @@ def run_program(P: dict, pid: int, seed: int, pass_names=None, with_sequences=Tr
             for _ in range(bound + 1):
                 if not rounds[-1]["modified"] and not rounds[-1]["changed"]:
                     break
-                r2 = (passes[0] if len(passes) == 1 else ir.passes.Sequential(*passes))(cur)
+                r2 = make_pass(job)[0](cur)
                 nb = ser(r2.model)
                 rounds.append({"modified": bool(r2.modified), "changed": nb != cur_bytes})
                 cur, cur_bytes = r2.model, nb
         except Exception as e:  # noqa: BLE001
             out["raised"].append({"id": key + ":round", "error": f"{type(e).__name__}: {str(e)[:160]}", "cause": ""})
+        # functionalize(pass): the caller's model must stay as it is, the result must be another model
+        func = {"funcTried": False, "funcRaised": False, "funcInputSame": True, "funcFresh": True}
+        if zlib.crc32(key.encode()) % 2 == 0:
+            fm = fresh()
+            try:
+                fr = ir.passes.functionalize(make_pass(job)[0])(fm)
+                func = {"funcTried": True, "funcRaised": False, "funcInputSame": ser(fm) == ser_before, "funcFresh": fr.model is not fm}
+            except Exception:  # noqa: BLE001 - the same failure as the plain application (recorded there)
+                func = {"funcTried": True, "funcRaised": True, "funcInputSame": True, "funcFresh": True}
         obs = irobs.project_model(after)
         out["obs"].append((key, obs))
         in_place = all(p.in_place for p in passes)
@@ -223,7 +292,7 @@ def run_program(P: dict, pid: int, seed: int, pass_names=None, with_sequences=Tr
             "inplace": bool(in_place), "same": after is model, "modified": bool(res.modified), "changed": bool(changed),
             "rounds": rounds, "size": bound - 1, "invariantsOK": True, "sortedBefore": bool(sorted_before),
             "sortedAfter": bool(is_sorted(after)), "namesOK": bool(names_ok(after)),
-            "analysis": all(n in ANALYSIS for n in job)}})
+            "analysis": all(n in ANALYSIS for n in job) and not job[0].startswith("PM"), **func}})
         if changed and not checker_ok(onnx.load_from_string(after_bytes)):
             try:
                 onnx.checker.check_model(onnx.load_from_string(after_bytes))
@@ -250,7 +319,8 @@ def run_program(P: dict, pid: int, seed: int, pass_names=None, with_sequences=Tr
             out["apps"].append({"id": f"{pid}:TopologicalSort@unsorted-body", "a": {
                 "inplace": True, "same": res.model is model, "modified": bool(res.modified), "changed": b1 != b0,
                 "rounds": [{"modified": False, "changed": False}], "size": 1, "invariantsOK": True, "sortedBefore": False,
-                "sortedAfter": bool(is_sorted(res.model)), "namesOK": True, "analysis": False}})
+                "sortedAfter": bool(is_sorted(res.model)), "namesOK": True, "analysis": False,
+                "funcTried": False, "funcRaised": False, "funcInputSame": True, "funcFresh": True}})
         except Exception as e:  # noqa: BLE001
             out["raised"].append({"id": f"{pid}:TopologicalSort@unsorted-body", "error": f"{type(e).__name__}: {str(e)[:160]}", "cause": ""})
     return out
@@ -283,16 +353,16 @@ def concrete_witness(proto_bytes: bytes, after_bytes: bytes, seed: int) -> dict:
 
 
 def _work(args):
-    items, seed, pass_names = args
+    items, seed, pass_names, func_only = args
     res = []
     for pid, P in items:
-        res.append((pid, run_program(P, pid, seed, pass_names)))
+        res.append((pid, run_functionalized(P, pid) if func_only else run_program(P, pid, seed, pass_names)))
     return res
 
 
-def run_corpus(programs, seed, nproc=16, pass_names=None, chunk=8):
+def run_corpus(programs, seed, nproc=16, pass_names=None, chunk=8, func_only=False):
     items = list(programs)
-    chunks = [(items[i:i + chunk], seed, pass_names) for i in range(0, len(items), chunk)]
+    chunks = [(items[i:i + chunk], seed, pass_names, func_only) for i in range(0, len(items), chunk)]
     with mp.get_context("fork").Pool(nproc) as pool:
         for part in pool.imap_unordered(_work, chunks):
             yield from part
